@@ -10,10 +10,10 @@ import (
 )
 
 type Case struct {
-	Kind   string     `json:"kind"` // seg | split | merged | buckets
-	Size   uint64     `json:"size,omitempty"`
-	Init   uint64     `json:"init,omitempty"`
-	End    uint64     `json:"end,omitempty"`
+	Kind   string      `json:"kind"` // seg | split | merged | buckets
+	Size   uint64      `json:"size,omitempty"`
+	Init   uint64      `json:"init,omitempty"`
+	End    uint64      `json:"end,omitempty"`
 	Ranges [][2]uint64 `json:"ranges,omitempty"`
 }
 
